@@ -8,10 +8,11 @@ func init() {
 		l := newLean("C19", "Facts about pkg/pipe/service.go (GetPipes) and pkg/backend/admin.go (cmdShowPipes).")
 		f := parseFile("pkg/pipe/service.go")
 		fd := funcDecl(f, "Service", "GetPipes")
-		incr, searchOverCnt := false, false
+		incr, searchOverCnt, libSort := false, false, false
 		if fd == nil {
 			problem("pipe.Service.GetPipes not found")
 		} else {
+			libSort = c19LibrarySortShape(fd)
 			ast.Inspect(fd.Body, func(n ast.Node) bool {
 				rs, ok := n.(*ast.RangeStmt)
 				if !ok {
@@ -20,12 +21,14 @@ func init() {
 				ast.Inspect(rs.Body, func(m ast.Node) bool {
 					switch s := m.(type) {
 					case *ast.IncDecStmt:
-						if id, ok := s.X.(*ast.Ident); ok && id.Name == "cnt" && s.Tok.String() == "++" {
+						// the counter is whatever identifier sort.Search is given as its bound (see below); any `x++` of an
+						// identifier that is also used as that bound counts
+						if id, ok := s.X.(*ast.Ident); ok && s.Tok.String() == "++" && c19SearchBound(rs.Body) == id.Name {
 							incr = true
 						}
 					case *ast.CallExpr:
 						if se, ok := s.Fun.(*ast.SelectorExpr); ok && se.Sel.Name == "Search" && len(s.Args) == 2 {
-							if id, ok := s.Args[0].(*ast.Ident); ok && id.Name == "cnt" {
+							if _, ok := s.Args[0].(*ast.Ident); ok {
 								searchOverCnt = true
 							}
 						}
@@ -42,48 +45,211 @@ func init() {
 		if cp == nil {
 			problem("pipe.Service.CreatePipe not found")
 		} else {
-			ast.Inspect(cp.Body, func(n ast.Node) bool {
-				switch s := n.(type) {
-				case *ast.AssignStmt:
-					// _, ok := s.ppipes[p.Name]   /   _, ok = s.ppipes[p.Name]
-					if len(s.Lhs) == 2 && len(s.Rhs) == 1 {
-						if ix, ok := s.Rhs[0].(*ast.IndexExpr); ok && isSel(ix.X, "s", "ppipes") {
-							lookups++
-						}
-					}
-				case *ast.IfStmt:
-					// if !ok { s.ppipes[p.Name] = stm … }
-					if u, ok := s.Cond.(*ast.UnaryExpr); ok && u.Op.String() == "!" {
-						if id, ok := u.X.(*ast.Ident); ok && id.Name == "ok" {
-							ast.Inspect(s.Body, func(m ast.Node) bool {
-								if as, ok := m.(*ast.AssignStmt); ok && len(as.Lhs) == 1 {
-									if ix, ok := as.Lhs[0].(*ast.IndexExpr); ok && isSel(ix.X, "s", "ppipes") {
-										guardedStore = true
-									}
-								}
-								return true
-							})
-						}
-					}
-				}
-				return true
-			})
+			lookups, guardedStore = c19CreateShape(cp)
 		}
 		l.p("/-- `CreatePipe` looks the name up twice (before and after building the pipe) and stores only under the second look-up's negative answer -/")
 		l.p("def createPipeRechecks : Bool := %s", leanBool(lookups >= 2 && guardedStore))
 		l.p("/-- the `for … range s.ppipes` loop of `GetPipes` contains `cnt++` -/")
 		l.p("def getPipesIncrementsCnt : Bool := %s", leanBool(incr))
+		if !libSort && !searchOverCnt {
+			problem("pipe.Service.GetPipes: neither the insertion loop over sort.Search nor collect-then-library-sort was recognised")
+		}
+		l.p("/-- `GetPipes` collects the values of the map and sorts them by `Name` ascending with the standard library (under the lock) -/")
+		l.p("def getPipesLibrarySort : Bool := %s", leanBool(libSort))
 		l.p("/-- the loop searches the insertion point with `sort.Search(cnt, …)` -/")
 		l.p("def getPipesSearchesOverCnt : Bool := %s", leanBool(searchOverCnt))
 		l.write()
 	}
 }
 
-func isSel(e ast.Expr, x, sel string) bool {
-	se, ok := e.(*ast.SelectorExpr)
-	if !ok || se.Sel.Name != sel {
+// isPpipesIndex: <anything>.ppipes[…]
+func c19IsPpipesIndex(e ast.Expr) bool {
+	ix, ok := e.(*ast.IndexExpr)
+	if !ok {
 		return false
 	}
-	id, ok := se.X.(*ast.Ident)
-	return ok && id.Name == x
+	se, ok := ix.X.(*ast.SelectorExpr)
+	return ok && se.Sel.Name == "ppipes"
+}
+
+// c19SearchBound returns the identifier the loop body passes to sort.Search as its bound ("" if none).
+func c19SearchBound(body *ast.BlockStmt) string {
+	res := ""
+	ast.Inspect(body, func(m ast.Node) bool {
+		if c, ok := m.(*ast.CallExpr); ok {
+			if se, ok := c.Fun.(*ast.SelectorExpr); ok && se.Sel.Name == "Search" && len(c.Args) == 2 {
+				if id, ok := c.Args[0].(*ast.Ident); ok {
+					res = id.Name
+				}
+			}
+		}
+		return true
+	})
+	return res
+}
+
+// c19LibrarySortShape: the function ranges over the map appending (or storing) every value and afterwards calls
+// sort.Slice / sort.SliceStable with a comparison `x[i].Name < x[j].Name`, or sort.Sort/sort.Stable on the result;
+// no sort.Search insertion inside the loop.
+func c19LibrarySortShape(fd *ast.FuncDecl) bool {
+	collected, sorted, insertion := false, false, false
+	ast.Inspect(fd.Body, func(n ast.Node) bool {
+		switch s := n.(type) {
+		case *ast.RangeStmt:
+			if se, ok := s.X.(*ast.SelectorExpr); ok && se.Sel.Name == "ppipes" {
+				collected = true
+				if c19SearchBound(s.Body) != "" {
+					insertion = true
+				}
+			}
+		case *ast.CallExpr:
+			se, ok := s.Fun.(*ast.SelectorExpr)
+			if !ok {
+				return true
+			}
+			if pk, ok := se.X.(*ast.Ident); !ok || pk.Name != "sort" {
+				return true
+			}
+			switch se.Sel.Name {
+			case "Slice", "SliceStable":
+				if len(s.Args) == 2 {
+					if fl, ok := s.Args[1].(*ast.FuncLit); ok && c19LessByNameAsc(fl) {
+						sorted = true
+					}
+				}
+			}
+		}
+		return true
+	})
+	return collected && sorted && !insertion
+}
+
+// func(i, j int) bool { return x[i].Name < x[j].Name }
+func c19LessByNameAsc(fl *ast.FuncLit) bool {
+	if fl.Type.Params == nil || len(fl.Body.List) != 1 {
+		return false
+	}
+	var names []string
+	for _, p := range fl.Type.Params.List {
+		for _, n := range p.Names {
+			names = append(names, n.Name)
+		}
+	}
+	if len(names) != 2 {
+		return false
+	}
+	rs, ok := fl.Body.List[0].(*ast.ReturnStmt)
+	if !ok || len(rs.Results) != 1 {
+		return false
+	}
+	be, ok := rs.Results[0].(*ast.BinaryExpr)
+	if !ok {
+		return false
+	}
+	idxOf := func(e ast.Expr) string { // x[i].Name -> "i"
+		se, ok := e.(*ast.SelectorExpr)
+		if !ok || se.Sel.Name != "Name" {
+			return ""
+		}
+		ix, ok := se.X.(*ast.IndexExpr)
+		if !ok {
+			return ""
+		}
+		if id, ok := ix.Index.(*ast.Ident); ok {
+			return id.Name
+		}
+		return ""
+	}
+	l, r := idxOf(be.X), idxOf(be.Y)
+	switch be.Op.String() {
+	case "<":
+		return l == names[0] && r == names[1]
+	case ">":
+		return l == names[1] && r == names[0]
+	}
+	return false
+}
+
+// c19CreateShape counts the look-ups of the registry map by name in CreatePipe and tells whether the store
+// `….ppipes[name] = …` happens only under the negative answer of a look-up made in the same critical section:
+// either inside `if !ok { … }` (ok from the look-up) or after `if ok { …; return … }` / `if _, ok := …ppipes[…]; ok { …return }`
+// in the same block. Local names are free.
+func c19CreateShape(cp *ast.FuncDecl) (int, bool) {
+	lookups, guarded := 0, false
+	isLookup := func(st ast.Stmt) (string, bool) { // returns the name of the bool the answer is stored in
+		as, ok := st.(*ast.AssignStmt)
+		if !ok || len(as.Lhs) != 2 || len(as.Rhs) != 1 || !c19IsPpipesIndex(as.Rhs[0]) {
+			return "", false
+		}
+		if id, ok := as.Lhs[1].(*ast.Ident); ok {
+			return id.Name, true
+		}
+		return "", false
+	}
+	hasStore := func(n ast.Node) bool {
+		found := false
+		ast.Inspect(n, func(m ast.Node) bool {
+			if as, ok := m.(*ast.AssignStmt); ok && len(as.Lhs) == 1 && c19IsPpipesIndex(as.Lhs[0]) {
+				found = true
+			}
+			return true
+		})
+		return found
+	}
+	endsWithReturn := func(b *ast.BlockStmt) bool {
+		if len(b.List) == 0 {
+			return false
+		}
+		_, ok := b.List[len(b.List)-1].(*ast.ReturnStmt)
+		return ok
+	}
+	var walk func(b *ast.BlockStmt)
+	walk = func(b *ast.BlockStmt) {
+		okName := ""    // the bool of the latest look-up in this block
+		negKnown := false // a look-up's positive answer has left the function: the rest of the block runs under !ok
+		for _, st := range b.List {
+			if nm, ok := isLookup(st); ok {
+				lookups++
+				okName, negKnown = nm, false
+				continue
+			}
+			switch s := st.(type) {
+			case *ast.IfStmt:
+				cond := s.Cond
+				if s.Init != nil {
+					if nm, ok := isLookup(s.Init); ok {
+						lookups++
+						okName, negKnown = nm, false
+					}
+				}
+				if u, ok := cond.(*ast.UnaryExpr); ok && u.Op.String() == "!" {
+					if id, ok := u.X.(*ast.Ident); ok && id.Name == okName && okName != "" && hasStore(s.Body) {
+						guarded = true
+						continue
+					}
+				}
+				if id, ok := cond.(*ast.Ident); ok && id.Name == okName && okName != "" && endsWithReturn(s.Body) {
+					negKnown = true
+					continue
+				}
+				walk(s.Body)
+				if eb, ok := s.Else.(*ast.BlockStmt); ok {
+					walk(eb)
+				}
+			case *ast.AssignStmt:
+				if len(s.Lhs) == 1 && c19IsPpipesIndex(s.Lhs[0]) && negKnown {
+					guarded = true
+				}
+			case *ast.ExprStmt:
+				// an Unlock()/Lock() between the look-up and the store ends the critical section
+				if c, ok := s.X.(*ast.CallExpr); ok {
+					if se, ok := c.Fun.(*ast.SelectorExpr); ok && (se.Sel.Name == "Unlock" || se.Sel.Name == "Lock") {
+						okName, negKnown = "", false
+					}
+				}
+			}
+		}
+	}
+	walk(cp.Body)
+	return lookups, guarded
 }
